@@ -395,6 +395,11 @@ def child_scenarios():
         "fanout": {"StartAt": "P", "States": {"P": {"Type": "Parallel", "End": True, "Branches": [
             {"StartAt": "A", "States": {"A": T("f", Next="B"), "B": T("g")}},
             {"StartAt": "W", "States": {"W": {"Type": "Wait", "Seconds": 30, "End": True}}}]}}},
+        # the child has a Wait behind it (ended by its timer) when the parent gives up: what the finished Wait registered
+        # for cancellation must be gone, or cancelling the child's tasks ends the child twice
+        "waited": {"StartAt": "W0", "States": {"W0": {"Type": "Wait", "Seconds": 0, "Next": "A"}, "A": T("f", Next="B"), "B": T("g")}},
+        "waited-wait": {"StartAt": "W0", "States": {"W0": {"Type": "Wait", "Seconds": 0, "Next": "W1"},
+                                                     "W1": {"Type": "Wait", "Seconds": 30, "End": True}}},
     }
     out = []
     for kn, kid in kids.items():
@@ -632,6 +637,17 @@ class Monitor(object):
                 if arn != ea and other is not None and dict(other).get("status") == "RUNNING":
                     self.problems.append(("C02.every_started_execution_ends", {"execution": arn, "record": dict(other),
                                                                                "volatile": s.snapshot_volatile()}))
+        # every other execution this run started (children) is notified like any execution: RUNNING once, then at most one
+        # terminal status, and nothing after it
+        per = {}
+        for n in s.notifications:
+            d = ((n.get("body") or {}).get("detail") or {})
+            if d.get("executionArn") and d.get("executionArn") != ea:
+                per.setdefault(d["executionArn"], []).append(d.get("status"))
+        for arn, sts in per.items():
+            ok = sts[:1] == ["RUNNING"] and len(sts) <= 2 and (len(sts) < 2 or sts[1] != "RUNNING")
+            if not ok and not any(p[0] == "C02.child_notified_once" for p in self.problems):
+                self.problems.append(("C02.child_notified_once", {"execution": arn, "statuses": sts}))
         # drain clause
         if term and s.quiescent_or_idle():
             v = s.snapshot_volatile()
